@@ -2,7 +2,7 @@
    Statements only; proofs in Lemmas/Lines.v.  Range: closed curves made of straight
    segments, all rational coordinates.  Curved crossings (Newton) and the parity of the
    number of transversal crossings (a Jordan-curve fact) are covered by the oracle only. *)
-From SV Require Import Model.Jordan Lemmas.Lines.
+From SV Require Import Model.Jordan Lemmas.Lines Lemmas.Safe.
 Open Scope Q_scope.
 
 (* 0 <= a < len(A.segments), 0 <= b < len(B.segments) *)
@@ -42,6 +42,20 @@ Theorem C14_swap : forall sa sb,
   lines sb sa = option_map (fun uv => (snd uv, fst uv)) (lines sa sb).
 Proof. exact lines_swap_gen. Qed.
 Print Assumptions C14_swap.
+
+(* ... and for the whole matrix: B.intersection(A) is A.intersection(B) with (a,u) and (b,v) swapped *)
+Theorem C14_swap_matrix : forall ja jb eb ep rows rows',
+  intersection jb ja eb ep = Ok rows' -> intersection ja jb eb ep = Ok rows ->
+  forall a b u v, In (a, b, Some (u, v)) rows <-> In (b, a, Some (v, u)) rows'.
+Proof. exact intersection_swap_some. Qed.
+Theorem C14_swap_equal_rows : forall ja jb eb ep rows rows',
+  intersection jb ja eb ep = Ok rows' -> intersection ja jb eb ep = Ok rows ->
+  forall a b, In (a, b, None) rows <-> In (b, a, None) rows'.
+Proof. exact intersection_swap_none. Qed.
+Theorem C14_swap_outcome : forall ja jb eb ep,
+  (exists rows, intersection ja jb eb ep = Ok rows) <-> (exists rows', intersection jb ja eb ep = Ok rows').
+Proof. exact intersection_outcome_swap. Qed.
+Print Assumptions C14_swap_matrix.
 
 (* the flags filter exactly the documented entries *)
 Theorem C14_flags : forall ja jb eb ep rows rows',
